@@ -4,9 +4,12 @@ import (
 	"bufio"
 	"encoding/json"
 	"fmt"
+	"io"
 	"os"
 	"os/exec"
+	"runtime/pprof"
 	"sync"
+	"time"
 
 	"symgo/interp"
 )
@@ -29,6 +32,11 @@ type JobResult struct {
 }
 
 func workerMain() {
+	if pf := os.Getenv("SYMGO_PROF"); pf != "" {
+		f, _ := os.Create(fmt.Sprintf("%s.%d", pf, os.Getpid()))
+		pprof.StartCPUProfile(f)
+		defer pprof.StopCPUProfile()
+	}
 	out := bufio.NewWriterSize(os.Stdout, 1<<20)
 	enc := json.NewEncoder(out)
 	l, err := loadProgram(envInt("SYMGO_SOLVER_TIMEOUT_MS", 20000))
@@ -80,6 +88,7 @@ type workerProc struct {
 	enc  *json.Encoder
 	dec  *json.Decoder
 	in   *bufio.Writer
+	pipe io.WriteCloser
 	dead bool
 }
 
@@ -102,7 +111,7 @@ func startWorker() (*workerProc, error) {
 	if err := cmd.Start(); err != nil {
 		return nil, err
 	}
-	w := &workerProc{cmd: cmd}
+	w := &workerProc{cmd: cmd, pipe: stdin}
 	w.in = bufio.NewWriter(stdin)
 	w.enc = json.NewEncoder(w.in)
 	w.dec = json.NewDecoder(bufio.NewReaderSize(stdout, 1<<20))
@@ -134,8 +143,18 @@ func (w *workerProc) run(j Job) (JobResult, error) {
 
 func (w *workerProc) stop() {
 	if w.cmd != nil && w.cmd.Process != nil {
-		w.cmd.Process.Kill()
-		w.cmd.Wait()
+		if w.pipe != nil {
+			w.pipe.Close()
+		}
+		done := make(chan struct{})
+		go func() { w.cmd.Wait(); close(done) }()
+		select {
+		case <-done:
+		case <-time.After(2 * time.Second):
+			w.cmd.Process.Kill()
+			<-done
+		}
+		w.cmd = nil
 	}
 }
 
